@@ -34,6 +34,7 @@ def obligations():
         Obl("C03.join.discard_overlap", "xh", H, "join_discard_overlap", [TJ + "join"], "with/without an overlapping boundary frame", "discard_overlapping_frames drops exactly the duplicated frame from every field", 200),
         Obl("C03.join.md_join_boundary", "xh", H, "md_join_coinciding_boundary", ["mdtraj.core.trajectory.join"], "two pieces whose boundary frames coincide; md.join with default / explicit flags, list or iterator",
             "all frames kept unless discard_overlapping_frames=True is requested", 200),
+        Obl("C03.recenter_after_edit", "xh", H, "recenter_after_inplace_edit", [TJ + "center_coordinates"], "n<=3; centre, in-place coordinate edit, centre again", "no stale trace cache after the documented remedy", 300),
         Obl("C03.stack", "xh", H, "stack_two", [TJ + "stack"], "n<=3, flags", "stack == hstack of coordinates, other fields from self; coordinates not shared", 300),
         Obl("C03.atom_slice", "xh", H, "atom_slice_op", [TJ + "atom_slice"], "every non-empty atom subset, inplace in {F,T}", "xyz[:, idx] and topology subset; inplace resets the trace cache; not-inplace shares nothing", 400),
         Obl("C03.remove_solvent", "xh", H, "remove_solvent_op", [TJ + "remove_solvent", TJ + "atom_slice"], "inplace in {F,T}", "same through remove_solvent", 200),
